@@ -20,6 +20,13 @@ Definition check_trim (c : trim_case) : bool :=
   let '(f, g, sm, wm, h, expected) := c in
   str_list_eqb (combinations gen_opts f g (lookup_s sm) (lookup_d wm) h) expected.
 
+(* the same with the model's candidate list computed once per cases file
+   (cands := Eval vm_compute in candidates gen_opts, in the prelude the harness writes) *)
+Definition check_trim_with (cands : list split) (c : trim_case) : bool :=
+  let '(f, g, sm, wm, h, expected) := c in
+  let f' := match g with Some g' => flags_and f g' | None => f end in
+  str_list_eqb (map print_split (trim f' (counts_of (lookup_s sm) (lookup_d wm) h) cands)) expected.
+
 (* predict()['model_split']: the keys of the stored sub-models (joined by "__"), the maps, and for
    every (month, day-of-week) cell the sorted distinct model_split texts observed on its dates.
    The model slices the key text the way _meter_segment does. *)
@@ -52,6 +59,14 @@ Definition check_route_parsed (c : route_case) : bool :=
                  str_list_eqb (sort_strings (map print_comp (receivers s (lookup_s sm) (lookup_d wm) month dow))) seen)
               obs
   end.
+
+Definition check_route_both (c : route_case) : bool := check_route c && check_route_parsed c.
+
+(* a binary64 value m * 2^e as an exact extended rational (the harness writes every finite criterion
+   this way: small literals instead of decimal fractions with hundreds of digits) *)
+Definition xdy (m e : Z) : xr :=
+  if (0 <=? e)%Z then XFin (Z.shiftl m e # 1)
+  else XFin (m # Z.to_pos (Z.shiftl 1 (- e))).
 
 (* _best_combination on a table of criteria *)
 Definition check_best (c : best_case) : bool :=
